@@ -66,7 +66,7 @@ types, assume_specifications, spec functions, lemmas):
   //@okmap? <needle>                 (DESIGN 9.2 rule 15) the statement `E.ok().map(|p| CALL);` that starts with <needle> - value discarded - is read as
                                       `if let Ok(p) = E { CALL; }` (std: Result::ok + Option::map call the closure exactly when E is Ok, with its payload);
                                       skipped (recorded) when no such statement exists, e.g. because the code already uses `if let` / `let else`
-  //@foreach <needle>                (DESIGN 9.2 rule 29) the statement `ITER.for_each(|p| EXPR);` that starts with <needle> is read as `for p in ITER { EXPR; }`
+  //@foreach[?] <needle>             (DESIGN 9.2 rule 29; with `?`: if the statement is absent the loop annotations of the fn are dropped and the body is verified as written) the statement `ITER.for_each(|p| EXPR);` that starts with <needle> is read as `for p in ITER { EXPR; }`
                                       (std: Iterator::for_each calls the closure on each item, in order; same as a for loop); applied BEFORE the loop directives, so the
                                       generated loop has an ordinal like any other
   //@continue_to_else <ordinal>      in the body of the n-th loop (a `for`), `if COND { continue; } REST` becomes `if COND {} else { REST }`
@@ -969,7 +969,7 @@ def expand(template_path, repo='/repo'):
                 elif t.startswith('//@okmap'):
                     okmaps.append(t.split(None, 1)[1].strip())
                 elif t.startswith('//@foreach'):
-                    foreachs.append(t.split(None, 1)[1].strip())
+                    foreachs.append((t.split(None, 1)[1].strip(), t.split(None, 1)[0].endswith('?')))
                 elif t.startswith('//@liftdrainfilter'):
                     nd, nm, el, extra = [x.strip() for x in t[len('//@liftdrainfilter'):].split('|', 3)]
                     lifts.append({'kind': 'drainfilter', 'needle': nd, 'name': nm, 'elem': el, 'extra': extra, 'clauses': [], 'pre': [], 'post': [], 'inv': [], 'removed': [], 'kept': []})
@@ -1125,10 +1125,18 @@ def expand(template_path, repo='/repo'):
                     side.setdefault('normalized_statements', []).append(oinfo)
                 else:
                     side.setdefault('skipped_normalizations', []).append('%s: okmap %s (statement not present in this form)' % (name, nd))
-            for nd in foreachs:
+            for nd, optional in foreachs:
                 body, oinfo = _foreach(body, nd, name)
                 if oinfo:
                     side.setdefault('normalized_statements', []).append(oinfo)
+                elif optional:
+                    # the statement is not there in this form (e.g. rewritten with `extend`): the body is verified AS IT IS against the same contract;
+                    # the annotations of the loop this rule would have generated go with it (the function must have no other loop)
+                    if _loop_bodies(body):
+                        raise CutError('fn %s: foreach?: statement starting with %r absent and the body has loops of its own (unsupported construct)' % (name, nd))
+                    loops, loopvars, loopbodies, loopafters, loopends = {}, {}, {}, {}, {}
+                    befores = [(n_, t_) for n_, t_ in befores if not n_.startswith('for ')]
+                    side.setdefault('skipped_normalizations', []).append('%s: foreach %s (statement not present in this form; loop annotations dropped, body verified as written)' % (name, nd))
                 else:
                     raise CutError('fn %s: foreach: no statement `ITER.for_each(|p| EXPR);` starting with %r (unsupported construct)' % (name, nd))
             for ordinal in sorted(lec, reverse=True):
